@@ -221,6 +221,8 @@ ReqOf(ev) ==
      [] ev.op = "Pem" -> (IF ev.out = "Ok" THEN ReqPem(ev.args, ev.obs) ELSE {<<"C14.pem_produced", FALSE>>})
      [] ev.op \in {"KeyLoad", "AlgTable"} -> ReqKeyEv(ev)
      [] ev.op = "KeyGen" -> ReqKeyGen(ev.be, ev.args, ev.out, ev.obs)
+     (* the key files shared by the builds of the purity / back-end sessions load under every build that has a back end *)
+     [] ev.op = "KeyFile" -> { <<"C16.same_key_file_loads_under_every_build", ev.out = "Ok">>, <<"C15.generation_succeeds", ev.out = "Ok">> }
      [] ev.op = "KeyWrapped" -> ReqKeyWrapped(ev.be, ev.args, ev.out, ev.obs)
      [] ev.op \in {"StringRuns", "StringBlock", "StringViews", "StringBytes", "StringMulti", "StringPlace"} -> ReqStringEv(ev)
      [] ev.op \in {"DnPush", "DnRemove", "DnEq", "DnEncode"} -> ReqDnEv(ev)
